@@ -10,17 +10,23 @@
 #include <stdint.h>
 #include <sys/time.h>
 #include <zlib.h>
+#include <execinfo.h>
 
 __thread int64_t hxa_live_blocks = 0;
 __thread int64_t hxa_live_bytes = 0;
 __thread uint64_t hxa_alloc_count = 0;
 __thread uint64_t hxa_fail_at = 0;
+__thread uint64_t hxa_fail_at2 = 0;
+__thread void *hxa_failed_site2 = NULL;
 __thread void *hxa_failed_site = NULL;
+__thread void *hxa_failed_stack[20];
+__thread int hxa_failed_stack_n = 0;
 __thread int hxa_failed_kind = 0;
 __thread int hxa_counting = 0;
 __thread uint64_t hxa_vclock = 1000000;
 
 size_t malloc_usable_size(void *);
+extern int __sanitizer_get_ownership(const volatile void *p) __attribute__((weak));
 
 static inline int should_fail(void *site, int kind) {
     if (!hxa_counting) return 0;
@@ -28,6 +34,13 @@ static inline int should_fail(void *site, int kind) {
     if (hxa_fail_at != 0 && hxa_alloc_count == hxa_fail_at) {
         hxa_failed_site = site;
         hxa_failed_kind = kind;
+        hxa_counting = 0;                       /* backtrace() may allocate on first use */
+        hxa_failed_stack_n = backtrace(hxa_failed_stack, 20);
+        hxa_counting = 1;
+        return 1;
+    }
+    if (hxa_fail_at2 != 0 && hxa_alloc_count == hxa_fail_at2) {
+        hxa_failed_site2 = site;
         return 1;
     }
     return 0;
@@ -37,6 +50,8 @@ static inline void note_alloc(void *p) {
     if (p != NULL && hxa_counting) { hxa_live_blocks++; hxa_live_bytes += (int64_t) malloc_usable_size(p); }
 }
 static inline void note_free(void *p) {
+    /* a pointer the allocator does not own (double free, wild free) is left to free() so that the sanitizer reports it as such */
+    if (p != NULL && __sanitizer_get_ownership && !__sanitizer_get_ownership(p)) return;
     if (p != NULL && hxa_counting) { hxa_live_blocks--; hxa_live_bytes -= (int64_t) malloc_usable_size(p); }
 }
 
